@@ -315,6 +315,19 @@ func (v *FnV) unify(st *State, a, b Value) (Value, Value) {
 	return a, b
 }
 
+// specArg converts an argument of a spec function to its parameter type:
+// untyped literals get the type, concrete values are boxed into interface parameters.
+func (v *FnV) specArg(st *State, a Value, t types.Type) Value {
+	a = v.specConv(st, a, t)
+	if t != nil && a.T != nil && isInterface(t) && !isInterface(a.T) {
+		if bt, ok := a.T.(*types.Basic); ok && bt.Kind() == types.UntypedNil {
+			return Value{T: t, S: "nilval"}
+		}
+		return Value{T: t, S: v.c.toIface(a)}
+	}
+	return a
+}
+
 func (v *FnV) specConv(st *State, a Value, t types.Type) Value {
 	if a.T != nil || t == nil {
 		return a
@@ -777,7 +790,7 @@ func (v *FnV) applySpecFn(st *State, sf *SpecFn, args []Value, sc *Scope) Value 
 			if err != nil {
 				sfail("%v", err)
 			}
-			vars[p] = v.specConv(st, args[i], pt)
+			vars[p] = v.specArg(st, args[i], pt)
 		}
 		nsc := &Scope{v: v, vars: vars, pkg: pkg, old: sc.old, oldVars: sc.oldVars, callee: true}
 		val := v.sp(st, sf.Body, nsc)
@@ -818,7 +831,7 @@ func (v *FnV) applySpecFn(st *State, sf *SpecFn, args []Value, sc *Scope) Value 
 	var as []string
 	for i, a := range args {
 		pt, _ := v.specType(sf.PTypes[i], pkg)
-		as = append(as, v.specConv(st, a, pt).S)
+		as = append(as, v.specArg(st, a, pt).S)
 	}
 	if len(as) == 0 {
 		return Value{T: rt, S: sym}
